@@ -1340,9 +1340,20 @@ async fn exec(ctx: &mut Ctx, line: &str) -> OpResult {
                     let sub_name = t.str().map_err(bad)?;
                     let topic_name = t.str().map_err(bad)?;
                     let ackdl: u64 = t.num().map_err(bad)?;
+                    // optional: a push endpoint (the subscription is created as a push subscription)
+                    let push_config = match t.opt_str().map_err(bad)? {
+                        None => None,
+                        Some(ep) => Some(
+                            deltio::verif::parse_push_config(&deltio::pubsub_proto::PushConfig {
+                                push_endpoint: ep,
+                                ..Default::default()
+                            })
+                            .map_err(|_| bad("XC: bad endpoint".into()))?,
+                        ),
+                    };
                     let topic = get_topic(&topic_name).ok_or_else(|| bad("XC: no such topic".into()))?;
                     let name = SubscriptionName::try_parse(&sub_name).ok_or_else(|| bad("XC: bad name".into()))?;
-                    let info = SubscriptionInfo::new(name, Duration::from_secs(ackdl.max(10)), None);
+                    let info = SubscriptionInfo::new(name, Duration::from_secs(ackdl.max(10)), push_config);
                     let sm2 = Arc::clone(&sm);
                     let topic2 = Arc::clone(&topic);
                     (Box::pin(async move { let _ = sm2.create_subscription(info, topic2).await; }), Some(topic), None)
@@ -1432,6 +1443,78 @@ async fn exec(ctx: &mut Ctx, line: &str) -> OpResult {
                 let _ = tokio::time::timeout(HANG_AFTER, f.as_mut()).await;
             }
             Ok(format!("XC {}", if done { "done" } else { "dropped" }))
+        }
+        "XD2" => {
+            // XD2 <k> <y> <fill> <sub> <topic>: two overlapping DeleteSubscription calls at library level. The topic's
+            // mailbox is pre-filled with `fill` pending requests; delete #1 is polled k times with y scheduler rounds
+            // after each poll (so that the subscription's actor has started the deletion and waits for the topic);
+            // then delete #2 is polled ONCE. Reported: whether #2 has answered already, and whether the manager
+            // still has the subscription at that very moment. Then both run to completion.
+            use deltio::topics::TopicName;
+            use std::pin::Pin;
+            type Fut = Pin<Box<dyn Future<Output = bool> + Send>>;
+            let k: usize = t.num().map_err(bad)?;
+            let y: usize = t.num().map_err(bad)?;
+            let fill: usize = t.num().map_err(bad)?;
+            let sub_name = t.str().map_err(bad)?;
+            let topic_name = t.str().map_err(bad)?;
+            t.end().map_err(bad)?;
+            let (tm, sm, _) = ctx.app.verif_parts();
+            let parsed = SubscriptionName::try_parse(&sub_name).ok_or_else(|| bad("XD2: bad name".into()))?;
+            let sub = sm.get_subscription(&parsed).map_err(|_| bad("XD2: no such subscription".into()))?;
+            let topic = TopicName::try_parse(&topic_name)
+                .and_then(|n| tm.get_topic(&n).ok())
+                .ok_or_else(|| bad("XD2: no such topic".into()))?;
+            let mut fillers: Vec<Pin<Box<dyn Future<Output = ()> + Send>>> = Vec::new();
+            for _ in 0..fill {
+                let topic = Arc::clone(&topic);
+                fillers.push(Box::pin(async move {
+                    let _ = topic.list_subscriptions(deltio::paging::Paging::start(1)).await;
+                }));
+            }
+            for f in fillers.iter_mut() {
+                let _ = futures::poll!(f.as_mut());
+            }
+            let s1 = Arc::clone(&sub);
+            let mut d1: Fut = Box::pin(async move { s1.delete().await.is_ok() });
+            let mut first_done = None;
+            for _ in 0..k {
+                if let std::task::Poll::Ready(ok) = futures::poll!(d1.as_mut()) {
+                    first_done = Some(ok);
+                    break;
+                }
+                for _ in 0..y {
+                    tokio::task::yield_now().await;
+                }
+            }
+            let s2 = Arc::clone(&sub);
+            let mut d2: Fut = Box::pin(async move { s2.delete().await.is_ok() });
+            let second = futures::poll!(d2.as_mut());
+            let present = sm.get_subscription(&parsed).is_ok();
+            let second_txt = match second {
+                std::task::Poll::Ready(true) => "ok",
+                std::task::Poll::Ready(false) => "err",
+                std::task::Poll::Pending => "pending",
+            };
+            if first_done.is_none() {
+                let _ = tokio::time::timeout(HANG_AFTER, d1.as_mut()).await;
+            }
+            if second.is_pending() {
+                let _ = tokio::time::timeout(HANG_AFTER, d2.as_mut()).await;
+            }
+            for mut f in fillers {
+                let _ = tokio::time::timeout(HANG_AFTER, f.as_mut()).await;
+            }
+            Ok(format!(
+                "XD2 first={} second={} {}",
+                match first_done {
+                    Some(true) => "ok",
+                    Some(false) => "err",
+                    None => "pending",
+                },
+                second_txt,
+                if present { "present" } else { "gone" }
+            ))
         }
         "XS" => {
             // XS <id> <sub> <max>: the server's own StreamingPull handler, called without the transport: the request
